@@ -20,11 +20,14 @@
 #include "common.h"
 #include "instruction_data.h"
 #include "instructions.h"
+#include "verif_hooks.h"
 #include <string.h>
 
 operand_format get_opd_format(char *opd_en) {
 
   int i = NA;
+  if (opd_en[0] != '\0')
+    AL_VERIF_TBL(0, 1, opd_en[0] - 'a', 0);
   if (opd_en[0] != '\0')
     i = opd_format_table_index[opd_en[0] - 'a'] - 1;
   // find the correct operand format enum given the corresponding string
@@ -41,6 +44,8 @@ int str_to_instr_key(char *instruction, operand_format opd_layout) {
 
   int i = 0;
   // set index of INSTR_TABLE[] to the first letter of instruction
+  if (IN_RANGE(instruction[0], 'a', 'z'))
+    AL_VERIF_TBL(0, 0, instruction[0] - 'a', 0);
   if (IN_RANGE(instruction[0], 'a', 'z'))
     i = instr_table_index[instruction[0] - 'a'] - 1;
   else
